@@ -118,4 +118,108 @@ theorem digitsVal_decDigits (n : Nat) : digitsVal 10 (decDigitsAux n []) = n := 
       rw [xval_digitChar _ (by omega)]
       omega
 
+theorem UInt8.forall_of_fin (P : UInt8 → Prop) (h : ∀ n : Fin 256, P (UInt8.ofNat n.val)) : ∀ c, P c := by
+  intro c
+  have := h ⟨c.toNat, c.toNat_lt⟩
+  simpa using this
+
+theorem isdigit_facts (c : UInt8) (h : isdigit c = true) :
+    c ≠ 45 ∧ c ≠ 43 ∧ isspace c = false ∧ dval c < 10 ∧ xval c = dval c ∧ digitOk 10 c = true ∧ c ≠ 0 := by
+  revert h; revert c
+  apply UInt8.forall_of_fin
+  decide +kernel
+
+theorem skipSpace_nonspace (c : UInt8) (r : Bytes) (h : isspace c = false) : skipSpace (c :: r) = c :: r := by
+  simp [skipSpace, h]
+
+theorem takeDigits_split (base : Nat) : ∀ (s : Bytes) (w : Option Nat),
+    s = (takeDigits base s w).1 ++ (takeDigits base s w).2 := by
+  intro s
+  induction s with
+  | nil => intro w; simp [takeDigits]
+  | cons c t ih =>
+    intro w
+    simp only [takeDigits]
+    split
+    · simp only [List.cons_append, List.cons.injEq, true_and]
+      exact ih (wDec w)
+    · simp
+
+theorem digitOk10_hd_false (rest : Bytes) (hr : isdigit (hd rest) = false) :
+    ∀ w, takeDigits 10 rest w = ([], rest) := by
+  intro w
+  cases rest with
+  | nil => rfl
+  | cons c r =>
+    simp only [hd] at hr
+    simp [takeDigits, digitOk, hr]
+
+theorem takeDigits10 (ds rest : Bytes) (hds : ∀ c ∈ ds, isdigit c = true) (hr : isdigit (hd rest) = false) :
+    takeDigits 10 (ds ++ rest) none = (ds, rest) := by
+  induction ds with
+  | nil => exact digitOk10_hd_false rest hr none
+  | cons c r ih =>
+    have hc := hds c (by simp)
+    obtain ⟨_, _, _, _, _, hok, _⟩ := isdigit_facts c hc
+    have := ih (fun x hx => hds x (by simp [hx]))
+    simp [takeDigits, wOk, wDec, hok, this]
+
+/-- what is left after a run of decimal digits has been (partly) taken starts with a digit of the
+    run or is what follows the run -/
+theorem takeDigits10_rest (ds rest : Bytes) (w : Option Nat)
+    (hds : ∀ c ∈ ds, isdigit c = true) (hr : isdigit (hd rest) = false) :
+    isdigit (hd (takeDigits 10 (ds ++ rest) w).2) = true ∨ (takeDigits 10 (ds ++ rest) w).2 = rest := by
+  induction ds generalizing w with
+  | nil => right; rw [List.nil_append, digitOk10_hd_false rest hr w]
+  | cons c r ih =>
+    have hc := hds c (by simp)
+    obtain ⟨_, _, _, _, _, hok, _⟩ := isdigit_facts c hc
+    simp only [List.cons_append, takeDigits]
+    by_cases hw : wOk w = true
+    · simp only [hw, hok, Bool.and_self, ↓reduceIte]
+      exact ih (wDec w) (fun x hx => hds x (by simp [hx]))
+    · left
+      simp only [hw, Bool.false_and, Bool.false_eq_true, ↓reduceIte, hd, hc]
+
+/-- unsigned digit string without leading zero, `%d` / `%i` -/
+theorem scanInt_digits_pos (conv : IntConv) (hconv : conv ≠ .x) (d : UInt8) (ds rest : Bytes)
+    (hd0 : isdigit d = true) (hnz : d ≠ 48)
+    (hds : ∀ c ∈ ds, isdigit c = true) (hr : isdigit (hd rest) = false) :
+    scanInt conv none (d :: ds ++ rest) =
+      some (clampI64 (digitsVal 10 (d :: ds) : Int), (d :: ds).length) := by
+  obtain ⟨h45, h43, hsp, _, _, _, _⟩ := isdigit_facts d hd0
+  have htd := takeDigits10 (d :: ds) rest (by intro c hc; simp at hc; rcases hc with rfl | hc; exact hd0; exact hds c hc) hr
+  simp only [List.cons_append] at htd
+  unfold scanInt
+  simp only [List.cons_append, skipSpace, hsp, Bool.false_eq_true, ↓reduceIte]
+  cases conv with
+  | x => exact absurd rfl hconv
+  | d => simp [h45, h43, hd, hnz, wOk, htd]; omega
+  | i => simp [h45, h43, hd, hnz, wOk, htd]; omega
+
+/-- "-" followed by a digit string without leading zero, `%d` / `%i` -/
+theorem scanInt_digits_neg (conv : IntConv) (hconv : conv ≠ .x) (d : UInt8) (ds rest : Bytes)
+    (hd0 : isdigit d = true) (hnz : d ≠ 48)
+    (hds : ∀ c ∈ ds, isdigit c = true) (hr : isdigit (hd rest) = false) :
+    scanInt conv none (45 :: d :: ds ++ rest) =
+      some (clampI64 (-(digitsVal 10 (d :: ds) : Int)), (d :: ds).length + 1) := by
+  have htd := takeDigits10 (d :: ds) rest (by intro c hc; simp at hc; rcases hc with rfl | hc; exact hd0; exact hds c hc) hr
+  simp only [List.cons_append] at htd
+  unfold scanInt
+  have h45sp : isspace 45 = false := by decide
+  simp only [List.cons_append, skipSpace, h45sp, Bool.false_eq_true, ↓reduceIte]
+  cases conv with
+  | x => exact absurd rfl hconv
+  | d => simp [hd, hnz, wOk, wDec, htd]; omega
+  | i => simp [hd, hnz, wOk, wDec, htd]; omega
+
+/-- the single digit "0", `%d` -/
+theorem scanInt_zero_d (rest : Bytes) (hr : isdigit (hd rest) = false) :
+    scanInt .d none (48 :: rest) = some (0, 1) := by
+  have htd := digitOk10_hd_false rest hr
+  unfold scanInt
+  have h48sp : isspace 48 = false := by decide
+  simp only [skipSpace, h48sp, Bool.false_eq_true, ↓reduceIte]
+  simp [hd, wOk, wDec, htd, digitsVal, clampI64]
+
 end Rtosc.Libc
